@@ -970,8 +970,8 @@ def _execute(w, case, seam, text, ns):
             m = pywbem_mock.FakedWBEMConnection(default_namespace=DEFAULT_NS)
             m.add_namespace('root/other')
             m.add_namespace('root/empty')
-            m.add_cimobjects(w.prelude_objs + ([q for _, q in w.pristine['ext']] if ext else []),
-                             DEFAULT_NS)
+            m.add_cimobjects([o.copy() for o in w.prelude_objs] +
+                             ([q.copy() for _, q in w.pristine['ext']] if ext else []), DEFAULT_NS)
             w.mock0[ext] = m
         conn = copy.deepcopy(w.mock0[ext])
         sp = [os.path.join(w.root, 'sp')] if case.get('search') else None
@@ -1215,7 +1215,7 @@ def build_token_case(name, edits, seam):
     t = TEMPLATES[name]
     spans = token_spans(name)
     if len(edits) == 1 and edits[0][1] == 'app':
-        text = t['text'] + ' ' + edits[0][2]
+        text = t['text'] + '\n' + edits[0][2]     # (a new line: the template may end in a // comment)
     else:
         text = apply_token_ops(t['text'], spans, list(edits))
         if text is None:
